@@ -43,11 +43,25 @@ class TermEval:
         self.enums = enums or {}
         self.atomfn = atomfn
 
+    binds = None
+
     def ev(self, t):
+        if self.binds and t in self.binds:
+            return self.binds[t]
         r = self.leaf(t)
         if r is not NOTHING:
             return r
         h = t[0]
+        if h == "builtin" and t[1] == "Ellipsis":
+            return Ellipsis
+        if h == "comp":
+            return self.comp(t)
+        if h == "star":
+            return ("*star*", self.ev(t[1]))
+        if h == "attr" and t[2] in ("start", "stop", "step", "real", "imag"):
+            v = self.ev(t[1])
+            if isinstance(v, (slice, int, float)):
+                return getattr(v, t[2])
         if h == "const":
             return t[1]
         if h == "enum":
@@ -86,6 +100,15 @@ class TermEval:
             name = t[1]
             args = [self.ev(x) for x in t[2] if not (isinstance(x, tuple) and x and x[0] == "kw")]
             leafname = name.split(".")[-1] if isinstance(name, str) else name
+            flat = []
+            for a_ in args:
+                if isinstance(a_, tuple) and len(a_) == 2 and a_[0] == "*star*":
+                    flat.extend(a_[1])
+                else:
+                    flat.append(a_)
+            args = flat
+            if leafname == "slice":
+                return slice(*args)
             if leafname == "len":
                 return len(args[0])
             if leafname in ("int",):
@@ -137,10 +160,40 @@ class TermEval:
         if h == "mcall":
             recv = self.ev(t[2])
             args = [self.ev(x) for x in t[3]]
-            if t[1] in ("count", "index", "lower", "upper", "strip", "format", "startswith", "endswith"):
+            if t[1] in ("count", "index", "lower", "upper", "strip", "format", "startswith", "endswith", "indices"):
                 return getattr(recv, t[1])(*args)
             raise Unknown("method %s" % t[1])
         raise Unknown(show(t))
+
+    def comp(self, t):
+        """list/generator comprehension over one iterable (or a zip of iterables)"""
+        _, kind, elt, iters, conds = t
+        if len(iters) != 1:
+            raise Unknown("nested comprehension")
+        it = iters[0]
+        if it[0] == "call" and it[1] == "zip":
+            srcs = list(it[2])
+            seqs = [list(self.ev(x)) for x in srcs]
+            n = min(len(x) for x in seqs) if seqs else 0
+        else:
+            srcs = [it]
+            seqs = [list(self.ev(it))]
+            n = len(seqs[0])
+        out = []
+        saved = self.binds
+        try:
+            for k in range(n):
+                b = dict(saved or {})
+                for src, seq in zip(srcs, seqs):
+                    b[("elem", src, 0)] = seq[k]
+                if len(srcs) > 1:
+                    b[("elem", it, 0)] = tuple(seq[k] for seq in seqs)
+                self.binds = b
+                if all(bool(self.ev(c)) for c in conds):
+                    out.append(self.ev(elt))
+        finally:
+            self.binds = saved
+        return out
 
     def cmp(self, op, a, b):
         if op in ("==", "is"):
@@ -184,13 +237,21 @@ class TermEval:
         raise Unknown("atom %s" % (atom[0],))
 
     PYTYPES = {"py:int": int, "py:str": str, "py:float": float, "py:bool": bool, "py:bytes": bytes, "py:list": list,
-               "py:tuple": tuple, "py:type": type, "ext:numbers.Integral": numbers.Integral,
+               "py:tuple": tuple, "py:type": type, "py:slice": slice, "ext:numbers.Integral": numbers.Integral,
                "ext:numbers.Real": numbers.Real, "ext:numbers.Number": numbers.Number}
 
     def isinst(self, v, key):
         for n in key.split("|"):
             if n in self.PYTYPES:
                 if isinstance(v, self.PYTYPES[n]):
+                    return True
+            elif n.endswith(".Iterable"):
+                import collections.abc
+                if isinstance(v, collections.abc.Iterable):
+                    return True
+            elif n.endswith(".Sequence"):
+                import collections.abc
+                if isinstance(v, collections.abc.Sequence):
                     return True
             elif n.startswith("ext:numpy.bool"):
                 if isinstance(v, bool):
